@@ -262,7 +262,7 @@ def run(tier: str, seed: int) -> int:
     finally:
         cleanup(res)
     if tier == "quick":
-        items = [it for it in items if it[0]["fin"] == "RC"] + [it for it in items if it[0]["fin"] != "RC"][::9]
+        items = [it for it in items if it[0]["fin"] == "RC"] + [it for it in items if it[0]["fin"] != "RC"][::3]
     consume(parallel_map(judge_tlm, items, procs=14, chunk=10))
     # 2. scatter
     res = run_tlc("Elements", cfg_text("scatter"), dump=True)
@@ -274,14 +274,14 @@ def run(tier: str, seed: int) -> int:
     finally:
         cleanup(res)
     if tier == "quick":
-        items = items[::6]
+        items = items[::3]
     consume(parallel_map(judge_scatter, items, procs=14, chunk=6))
     # 3. corner grid of every registered class
     by_arity = {}
     for sym, cls in sorted(get_elements(private=True).items()):
         by_arity.setdefault(len(cls.get_default_values()), []).append(sym)
     for arity, syms in sorted(by_arity.items()):
-        maxoff = arity if (tier == "thorough" and arity <= 5) else min(arity, 2 if tier == "quick" else 3)
+        maxoff = arity if (tier == "thorough" and arity <= 5) else min(arity, 3)
         res = run_tlc("Elements", cfg_text("corners", arity, maxoff), dump=True)
         try:
             v.add_tlc(f"corner grid arity={arity} (<= {maxoff} parameters off default) for {'/'.join(syms)}", res)
